@@ -161,6 +161,17 @@ func (r *Report) writerHistory(g *gen.G, cf *CasesFile, dir string) {
 				r.Fail(Failure{What: "a writer's options after construction are not the given value (or a nil argument replaced a default)", Input: map[string]any{"history": desc, "with": specs}})
 			}
 			nw.Storage = wrec
+			// the nested option values of an instance are its own: no other live instance, and no instance
+			// constructed without options, holds the same RenderOptions / StoreOptions value
+			// (every option value given in these histories is given to one constructor only)
+			fresh := writer.New()
+			for j, other := range append(append([]*writer.Writer{}, insts...), fresh) {
+				// (SerializeOptions has no fields: pointers to values of size zero may coincide and share nothing)
+				if other.Options == nw.Options || other.Options.RenderOptions == nw.Options.RenderOptions || other.Options.StoreOptions == nw.Options.StoreOptions {
+					r.Fail(Failure{What: "two writers share an options value (writing through one instance's options changes the other's)", Detail: fmt.Sprintf("the new instance and instance %d (the last one is a writer constructed without options)", j), Input: map[string]any{"history": desc, "with": specs}})
+					break
+				}
+			}
 			insts = append(insts, nw)
 			hist = append(hist, "(HNew "+coqfmt.List(specs, coqOpt)+")")
 			desc = append(desc, map[string]any{"new_writer_with": specs})
